@@ -182,6 +182,11 @@ package task
 //@   requires forall j {deferRegistered(t, j)} :: !deferRegistered(t, j)
 //@   ensures forall j {deferRan(t, j)} :: deferRegistered(t, j) ==> deferRan(t, j)                   [C14]
 //@   ensures result == nil ==> e.ForceAll || (!call.Indirect && e.Force) || precondsOK(call)          [C13]
+//@   init sawExit := false
+//@   init sawCode := 0
+//@   site IsExitStatus#1 ghost sawExit := result.1 && !t.IgnoreError
+//@   site IsExitStatus#1 ghost sawCode := result.0
+//@   ensures result != nil && sawExit ==> deferredExitCode == sawCode                                 [C14]
 
 //@ func (*Executor).runCommand
 //@   modifies heap, fs_exists, fs_ver
@@ -203,11 +208,20 @@ package task
 //@   ensures result == nil && shFailed ==> shExit && t.Cmds[i].IgnoreError                             [C03]
 //@   ensures nestFailed ==> result != nil                                                              [C03]
 
+// A deferred entry runs with a context that is NOT derived from the (possibly cancelled) task context, sees
+// EXIT_CODE only when a command failed, and its own failure is swallowed (the function returns nothing).
+//@ ghost var bgCtx context.Context scratch
+//@ ghost var ownCtx context.Context scratch
 //@ func (*Executor).runDeferred
-//@   trusted
 //@   modifies heap, fs_exists, fs_ver
 //@   preserves $RUNDATA
 //@   blocks
+//@   requires semLimited() ==> tok == 1
+//@   ensures  tok == old(tok)                                                                          [C07]
+//@   site context.Background#1 ghost bgCtx := result
+//@   site context.WithCancel#1 requires arg0 == bgCtx                                                  [C14]
+//@   site context.WithCancel#1 ghost ownCtx := result.0
+//@   site (*Executor).runCommand#1 requires arg1 == ownCtx && arg2 == t && arg3 == call && arg4 == i   [C14]
 
 //@ func (*Executor).areTaskPreconditionsMet
 //@   modifies heap, fs_exists, fs_ver
@@ -268,6 +282,9 @@ package task
 // ---- C04 / C12: where the fingerprint is consulted, the dry flag and the method are the executor's -----
 // fpTouched: the fingerprint of t may have been rewritten by this execution (the check ran and was not dry).
 // attempted: a command of t has been started. cleaned(t): statusOnError ran for t.
+// sawExit/sawCode: a command of t failed with this exit status (and the task does not ignore it)
+//@ ghost var sawExit bool scratch
+//@ ghost var sawCode int scratch
 //@ ghost var fpTouched bool scratch
 //@ ghost var attempted bool scratch
 //@ ghost fact cleaned(t *ast.Task)
@@ -295,3 +312,11 @@ package task
 // Listing tasks for an editor (--list --json) is a query: it must never write fingerprints.
 //@ func (*Executor).ToEditorOutput$1
 //@   site fingerprint.WithDry#1 requires arg0                                                         [C12,C04]
+
+// Task lookup (C15 examines it); frame only here: it may attach MATCH to the call's variables.
+//@ func (*Executor).GetTask
+//@   trusted
+//@   modifies heap
+//@   preserves $RUNDATA
+//@   nilable result
+//@   ensures result.1 == nil ==> result.0 != nil
